@@ -58,7 +58,7 @@ sh("git checkout -- . && git clean -fdq", cwd=WT)
 # ---- run the checks against the change (scratch worktree with the change applied; same as `git -C /repo apply` + checks +
 # `git -C /repo checkout -- .`, but without touching /repo so that other work can go on)
 det = {}
-if ok:
+if ok and not os.environ.get('SEED_CONFIRM_NO_CHECKS'):
     rc, o = sh("git apply %s" % os.path.join(out_dir, "change%s.diff" % n), cwd=WT)
     assert rc == 0, o
     env = dict(os.environ, VERIF_REPO=WT, VERIF_BUILD="/tmp/confirm_build", VERIF_EVID="/tmp/confirm_evid", VERIF_REPLAYS="/tmp/confirm_replays")
